@@ -48,7 +48,10 @@ ClosingLines(s) == {cs.scopes[a].closing : a \in {x \in SelfAnc(s) \cap SNames :
 IsClosing(s) == ClosingLines(s) # {}
 ClosingSince(s) == CHOOSE m \in ClosingLines(s) : \A k \in ClosingLines(s) : m <= k
 \* a Close of s or of an ancestor, or of the provider, has already returned
-IsClosed(s) == cs.pclosed \/ \E a \in SelfAnc(s) \cap SNames : cs.scopes[a].closed
+\* closed: the Close that did the closing has returned - the scope and all its descendants refuse.
+\* refuses: some Close call on this very scope has returned (possibly the idempotent no-op while the closing is
+\* still in progress elsewhere) - the scope itself refuses, its descendants may not be closed yet.
+IsClosed(s) == cs.pclosed \/ (s \in SNames /\ cs.scopes[s].refuses) \/ \E a \in SelfAnc(s) \cap SNames : cs.scopes[a].closed
 ScopeOfTarget(sc) == IF sc = "prov" THEN "root" ELSE sc
 Ids == DOMAIN cs.inst
 
@@ -66,7 +69,7 @@ ApplyCall2(e) ==
                               ELSE IF e.op \in {"close", "cancel"} THEN (tgt \in SNames /\ IsClosing(tgt)) ELSE FALSE]
         withCur == [cs EXCEPT !.curs = (e.th :> rec) @@ @]
     IN
-    IF e.op = "build" THEN [withCur EXCEPT !.phase = "building", !.scopes = ("root" :> [parent |-> NONE, closing |-> 0, closed |-> FALSE])]
+    IF e.op = "build" THEN [withCur EXCEPT !.phase = "building", !.scopes = ("root" :> [parent |-> NONE, closing |-> 0, closed |-> FALSE, refuses |-> FALSE])]
     ELSE IF e.op \in {"close", "cancel"} /\ e.sc \in SNames /\ cs.scopes[e.sc].closing = 0
     THEN [withCur EXCEPT !.scopes = [@ EXCEPT ![e.sc] = [@ EXCEPT !.closing = l]]]
     ELSE IF e.op = "closeprov" /\ cs.pclosing = 0 THEN [withCur EXCEPT !.pclosing = l]
@@ -226,7 +229,7 @@ ApplyRet2(e) ==
     IN
     IF c.op = "build" THEN [base EXCEPT !.phase = IF err = {} THEN "built" ELSE "failed"]
     ELSE IF c.op = "create" /\ err = {} /\ ~e.panic THEN
-        [base EXCEPT !.scopes = (c.name :> [parent |-> IF c.sc = "prov" THEN NONE ELSE c.sc, closing |-> 0, closed |-> FALSE]) @@ @]
+        [base EXCEPT !.scopes = (c.name :> [parent |-> IF c.sc = "prov" THEN NONE ELSE c.sc, closing |-> 0, closed |-> FALSE, refuses |-> FALSE]) @@ @]
     ELSE IF c.op = "resolve" /\ err = {} /\ val # {} THEN
         LET v == e.res.ids[1]
             life == cs.inst[v].life
@@ -237,8 +240,10 @@ ApplyRet2(e) ==
         [base EXCEPT !.reports = IF "disposal" \in err THEN @ \cup {[th |-> e.th, line |-> l]} ELSE @,
                      \* a Close that returned means the scope refuses from now on; its descendants are closed for sure
                      \* only when this was the Close that did the closing (not the idempotent no-op)
-                     !.scopes = [s \in SNames |-> IF s = c.sc \/ (s \in Sub(c.sc) /\ ~c.lost)
-                                                  THEN [@[s] EXCEPT !.closed = TRUE, !.closing = IF @ = 0 THEN c.line ELSE @] ELSE @[s]]]
+                     !.scopes = [s \in SNames |-> IF s \in Sub(c.sc) /\ ~c.lost
+                                                  THEN [@[s] EXCEPT !.closed = TRUE, !.refuses = TRUE, !.closing = IF @ = 0 THEN c.line ELSE @]
+                                                  ELSE IF s = c.sc THEN [@[s] EXCEPT !.refuses = TRUE, !.closing = IF @ = 0 THEN c.line ELSE @]
+                                                  ELSE @[s]]]
     ELSE IF c.op = "closeprov" THEN [base EXCEPT !.pclosed = ~c.lost \/ @, !.plost = @ \/ c.lost,
                                                   !.reports = IF "disposal" \in err THEN @ \cup {[th |-> e.th, line |-> l]} ELSE @]
     ELSE base
